@@ -17,6 +17,7 @@ RULE = (
 )
 REQUIRED = ["posterior_mean", "posterior_covar", "mll_unnormalised", "expected_log_prob", "log_marginal", "no_nan_leaves", "order_independent"]
 ASSUMPTIONS = [
+    "'fill' is documented as not supporting lazy covariance matrices during prediction: the iterative-solver variant runs under 'mask' only (under 'fill' the -999 fill values enter the CG right-hand side and cost 3 digits: 2e-3 observed)",
     "policy 'mask' with batched targets masks an observation for the whole batch when it is NaN in any batch element (documented); the reference deletes the union",
     "ExactMarginalLogLikelihood under 'mask' divides by the total count: compared un-normalised; 'fill' is documented as unsupported for the MLL (counted as rejected input)",
 ]
@@ -36,7 +37,7 @@ def cases(tier, seed):
                        "n": rnd.choice([5, 8]), "rank": rnd.choice([0, 1, 2]), "fillvalue_target": rnd.random() < 0.25, "seed": rnd.randrange(10**6)}
         # the policies together with other features that have prediction code of their own
         for var, pat, fpv in itertools.product(["linear_mean", "fixed+learn", "kiss", "rff", "linear_kernel", "iterative"], ["first", "interior", "random50"], [False, True]):
-            yield {"kind": "posterior", "model": "single", "pattern": pat, "order": rnd.choice(orders), "fast_pred_var": fpv, "lik": "gauss", "variant": var, "n": rnd.choice([6, 9]), "rank": 0,
+            yield {"kind": "posterior", "model": "single", "pattern": pat, "order": rnd.choice(orders) if var != "iterative" else ["mask"], "fast_pred_var": fpv, "lik": "gauss", "variant": var, "n": rnd.choice([6, 9]), "rank": 0,
                    "fillvalue_target": False, "seed": rnd.randrange(10**6)}
         for pat, model in itertools.product(PATTERNS, ["single", "batch", "mt"]):
             yield {"kind": "mll", "model": model, "pattern": pat, "lik": "gauss" if model != "mt" else "mt", "n": rnd.choice([5, 8]), "rank": rnd.choice([0, 1]), "seed": rnd.randrange(10**6)}
